@@ -8,6 +8,7 @@ import (
 
 	va "github.com/JunNishimura/Goit/verifapi"
 
+	"verif/harness/core"
 	"verif/harness/gen"
 	"verif/harness/gitfmt"
 )
@@ -160,6 +161,63 @@ func monC01(c *runCtx) {
 			kt, kind := kindOf(bi)
 			doCase(idx, kt, kind, b, "huge-compressible")
 			idx++
+		}
+	}
+	// boundaries of the ENCODED object ("<kind> <n>\0" + bytes) and of the COMPRESSED file: sizes that are exact multiples
+	// of a block (512 B .. 1 MiB, thorough .. 8 MiB), one below and one above; chunked readers and writers lose or
+	// refuse their last block exactly there
+	caseNo := 0
+	blocks := []int{512, 1024, 4096, 8192, 16384, 32768, 65536, 1 << 17, 1 << 18, 1 << 19, 1 << 20}
+	for _, B := range blocks {
+		for _, m := range []int{1, 2, 3} {
+			total := B * m
+			if total > maxSize*2 {
+				continue
+			}
+			for _, d := range []int{-1, 0, 1} {
+				caseNo++
+				if caseNo%c.of != c.shard {
+					continue
+				}
+				kt, kind := kindOf(caseNo % 3)
+				if nb, ok := gitfmt.BodyLenForEncoded(kind, total+d); ok {
+					body := core.RandBytes(fmt.Sprint("c01-enc-", total, d), int64(nb))
+					if caseNo%4 == 0 {
+						body = make([]byte, nb) // zeros: the same boundary with a tiny compressed file
+					}
+					doCase(idx, kt, kind, body, fmt.Sprintf("encoded-boundary-%d", total))
+					idx++
+				}
+			}
+		}
+	}
+	for _, T := range []int{4096, 8192, 32768, 65536, 1 << 18, 1 << 20, 2 << 20} {
+		if T > maxSize*2 {
+			continue
+		}
+		caseNo++
+		if caseNo%c.of != c.shard {
+			continue
+		}
+		kt, kind := kindOf(caseNo % 3)
+		seed := fmt.Sprint("c01-zip-", T)
+		nb := int64(T - 64)
+		hit := false
+		for it := 0; it < 40 && nb > 0; it++ {
+			L := len(gitfmt.EncodeObjectFile(kind, core.RandBytes(seed, nb)))
+			if L == T {
+				hit = true
+				break
+			}
+			nb += int64(T - L)
+		}
+		if hit {
+			c.count("C01.compressed-boundary-cases")
+			doCase(idx, kt, kind, core.RandBytes(seed, nb), fmt.Sprintf("compressed-boundary-%d", T))
+			idx++
+			if raw, err := readObjectFile(root, gitfmt.ObjectID(kind, core.RandBytes(seed, nb))); err == nil && len(raw) == T {
+				c.count("C01.compressed-boundary-hit-exactly")
+			}
 		}
 	}
 	for i := 0; i < n; i++ {
